@@ -22,7 +22,7 @@ LEVEL_TEXT = ("Clouds of 10^4-10^6 particles are stepped 1-50 times by the real 
 LEVEL_NOTE = "Restated as bounded statistics: moments and independence only (no normality test). A 6-sigma band with 1e5 particles is +-2.7 % on the variance: false alarms at the 1e-8 level per test, factor-2/unit errors far outside."
 RULE = ("case = (D, Dz, dt, dx, dy, steps, cloud size, seed). Non-trivial: D > 0 or Dz > 0 with at least 2 steps (independence across steps observable); distinct by parameters.")
 MANDATORY = ["horizontal_variance_tests", "vertical_variance_tests", "mean_tests", "cross_covariance_tests", "lag1_tests", "neighbour_tests", "growth_tests",
-             "zero_diffusion_deterministic", "anisotropic_grid", "rng_seeded_by_harness", "e2e_variance_tests", "horizontal_vertical_covariance_tests"]
+             "zero_diffusion_deterministic", "anisotropic_grid", "rng_seeded_by_harness", "e2e_variance_tests", "horizontal_vertical_covariance_tests", "varying_metric_variance_tests"]
 ASSUMPTIONS = ["still water, uniform metric, no boundaries reached (grid and water column far larger than the cloud)"]
 TIMEOUT = {"quick": 900, "thorough": 3400}
 KSIG = 6.0
@@ -46,6 +46,22 @@ class UGrid:
 
     def atsea(self, X, Y):
         return np.ones(len(X), bool)
+
+
+class VGrid(UGrid):
+    """Unbounded grid whose spacing varies from cell to cell (dx along x, dy along y)."""
+
+    def __init__(self, dx, dy, depth=1.0e7):
+        super().__init__(dx, dy, depth)
+
+    def _dx(self, X):
+        return self.dx * (1.0 + 0.45 * np.sin(0.9 * np.round(X)))
+
+    def _dy(self, Y):
+        return self.dy * (1.0 + 0.45 * np.cos(0.7 * np.round(Y)))
+
+    def metric(self, X, Y):
+        return self._dx(np.asarray(X)), self._dy(np.asarray(Y))
 
 
 class NoForce:
@@ -78,7 +94,13 @@ def gen_cases(tier: str, seed: int) -> list[dict[str, Any]]:
         cases.append(dict(idx=i, rngseed=int(seed * 100003 + i), D=D, Dz=Dz, dt=int(rng.choice([10, 60, 600, 3600])), dx=dx,
                           dy=dx * float(rng.choice([1.0, 1.0, 0.5, 2.5])), steps=int(rng.choice([1, 2, 5, 20, 50])),
                           n=int(rng.choice([10**4, 10**5, 3 * 10**5])) if tier == "quick" else int(rng.choice([10**4, 10**5, 10**6])),
-                          advection=str(rng.choice(["", "EF"]))))
+                          advection=str(rng.choice(["", "EF"])), varying_metric=bool(i % 3 == 1)))
+        if cases[-1]["varying_metric"]:
+            # random step comparable to the cell size and several steps: the cloud wanders through cells of different spacing
+            c = cases[-1]
+            c["D"] = float(rng.uniform(0.15, 0.6)) * min(c["dx"], c["dy"]) ** 2 / (2 * c["dt"])
+            c["steps"] = int(rng.integers(5, 12))
+            c["n"] = min(c["n"], 10**5)
     # end to end: ladim.main on a still-water ROMS file, rng seeded by the harness (hook on Tracker.__init__)
     for i in range(6 if tier == "quick" else 200):
         rng = C.rng_for(seed, 111, i)
@@ -139,13 +161,18 @@ def run_case(case: dict[str, Any], wd: Path) -> dict[str, Any]:
     def make(seed):
         timer = TimeKeeper(start=C.T0, stop=str(tadd(C.T0, dt * (steps + 2))), dt=dt)
         state = State()
-        modules: dict[str, Any] = dict(time=timer, state=state, grid=UGrid(dx, dy), forcing=NoForce())
+        grid = VGrid(dx, dy) if case.get("varying_metric") else UGrid(dx, dy)
+        modules: dict[str, Any] = dict(time=timer, state=state, grid=grid, forcing=NoForce())
         tr = Tracker(advection=case["advection"], diffusion=D, vertdiff=Dz, modules=modules)
         if D == 0 and Dz == 0:
             tr.rng = ForbiddenRNG()
         else:
             tr.rng = np.random.default_rng(seed)  # the seed hook the property asks for, provided by the harness
-        state.append(X=np.full(n, 100.0), Y=np.full(n, 200.0), Z=np.full(n, 5.0e6))
+        if case.get("varying_metric"):
+            r0 = np.random.default_rng(seed + 12345)
+            state.append(X=r0.uniform(95.0, 105.0, size=n), Y=r0.uniform(195.0, 205.0, size=n), Z=np.full(n, 5.0e6))
+        else:
+            state.append(X=np.full(n, 100.0), Y=np.full(n, 200.0), Z=np.full(n, 5.0e6))
         return timer, state, tr
 
     def bump(k):
@@ -170,6 +197,20 @@ def run_case(case: dict[str, Any], wd: Path) -> dict[str, Any]:
             tr.update()
             dX, dY, dZ = state.X - Xb, state.Y - Yb, state.Z - Zb
             cnt["displacements_observed"] = cnt.get("displacements_observed", 0) + 3 * n
+            if case.get("varying_metric") and D > 0:
+                # local spacing of the cell each particle occupied when the step began (independent formula)
+                mx = dX * dx * (1.0 + 0.45 * np.sin(0.9 * np.round(Xb)))
+                my = dY * dy * (1.0 + 0.45 * np.cos(0.7 * np.round(Yb)))
+                for name, m_ in (("X", mx), ("Y", my)):
+                    v = float(m_.var(ddof=1))
+                    bump("varying_metric_variance_tests")
+                    if abs(v - 2 * D * dt) > band_var(2 * D * dt, n) or abs(float(m_.mean())) > KSIG * np.sqrt(2 * D * dt / n):
+                        V.append(C.viol(f"step {s}: on a grid with spatially varying spacing the {name} displacement in metres (local spacing of the start cell) has variance {v:.6g} "
+                                        f"and mean {float(m_.mean()):.3g}; configured 2*D*dt = {2 * D * dt:.6g} (ratio {v / (2 * D * dt):.4f})", **desc))
+                prev = None
+                if len(V) > 3:
+                    break
+                continue
             if D > 0:
                 for name, d, s2 in (("X", dX, sx2), ("Y", dY, sy2)):
                     m, v = float(d.mean()), float(d.var(ddof=1))
@@ -217,7 +258,7 @@ def run_case(case: dict[str, Any], wd: Path) -> dict[str, Any]:
             if len(V) > 3:
                 break
         # variance after m steps = m x one-step variance
-        if steps >= 2 and not V:
+        if steps >= 2 and not V and not case.get("varying_metric"):
             for name, tot, s2 in (("X", state.X - X0, sx2), ("Y", state.Y - Y0, sy2), ("Z", state.Z - Z0, sz2)):
                 if s2 == 0:
                     continue
